@@ -34,16 +34,20 @@ Record task_dom (clock : Z) (t : task) : Prop := {
             | ProgFloat => numtext_ok (t_prog_txt t) = true /\ num_in_unit (t_prog_txt t) = true
             | _ => True
             end;
-  td_style : opt_ok (forallb (fun kv => single_line (fst kv) && single_line (snd kv))) (t_net_style t) = true
+  td_style : opt_ok (forallb (fun kv => single_line (fst kv) && single_line (snd kv))) (t_net_style t) = true;
+  td_preds : forallb (fun p => single_line (snd p)) (t_preds t) = true
 }.
 
 Lemma task_ok_dom : forall clock t, task_ok clock t = true -> task_dom clock t.
 Proof.
   intros clock t H. unfold task_ok in H.
-  repeat (apply andb_true_iff in H; destruct H as [H ?]).
+  apply andb_true_iff in H as [H H9]. apply andb_true_iff in H as [H H8]. apply andb_true_iff in H as [H H7].
+  apply andb_true_iff in H as [H H6]. apply andb_true_iff in H as [H H5].
+  apply andb_true_iff in H as [H H4]. apply andb_true_iff in H as [H H3].
+  apply andb_true_iff in H as [H1 H2].
   constructor; try assumption.
-  destruct (progress_kind clock t); try exact I.
-  match goal with X : (_ && _) = true |- _ => apply andb_true_iff in X; exact X end.
+  - destruct (t_est t); [exact H5 | discriminate].
+  - destruct (progress_kind clock t); try exact I. apply andb_true_iff in H7. exact H7.
 Qed.
 
 Lemma wbs_ok_dom : forall clock w, wbs_ok clock w = true -> Forall (task_dom clock) (tasks_of w).
@@ -102,9 +106,9 @@ Proof.
   change (lookup K_end_date (fixed_fields clock keys (t, pid))) with (Some (SStr (fmt_dmy 45 (t_end t)))).
   change (lookup K_parent (fixed_fields clock keys (t, pid))) with (Some (SNum (print_N pid))).
   change (lookup K_progress (fixed_fields clock keys (t, pid))) with (Some (SNum (progress_text clock t))).
-  rewrite !parse_print_N.
+  cbv beta iota. rewrite !parse_print_N. cbv beta iota.
   rewrite (parse_fmt_dmy 45 _ (date_ok_small _ (td_start _ _ D))), (parse_fmt_dmy 45 _ (date_ok_small _ (td_end _ _ D))).
-  rewrite (unit_progress _ _ D). unfold json_entry. cbn [fst snd].
+  cbv beta iota. rewrite (unit_progress _ _ D). unfold json_entry. cbn [fst snd].
   destruct (t_ms t); reflexivity.
 Qed.
 
@@ -114,7 +118,7 @@ Proof.
   change (lookup K_id ?o) with (Some (SNum (print_N i))).
   change (lookup K_source ?o) with (Some (SNum (print_N s))).
   change (lookup K_target ?o) with (Some (SNum (print_N t))).
-  rewrite !parse_print_N. reflexivity.
+  cbv beta iota. rewrite !parse_print_N. reflexivity.
 Qed.
 
 Lemma all_some_map : forall {A B C} (f : B -> option C) (g : A -> B) (h : A -> C) (l : list A),
